@@ -188,7 +188,7 @@ def check_scenario(cfg: Dict, model_out: Optional[Tuple[str, str]], twice: bool 
     return fails, inv
 
 
-STATE_TOKENS = re.compile(r" (wired|en|st|h)=\S+|^(node \S+ \S+) \S+")
+STATE_TOKENS = re.compile(r" (wired|en|st|h|flags)=\S+|^(node \S+ \S+) \S+")
 
 
 def mask_states(inv: List[str]) -> List[str]:
@@ -673,7 +673,7 @@ def run(ctx: Ctx):
         meta_of[nm] = {"site": n, "own": F._tag(o), "dflt": F._tag(d), "translated": repr(g), "specified": repr(w)}
         ctx.count("counter-model:" + n)
     fam = F.two_source_grid()
-    sf = F.schema_falsy_cases() + F.agent_settings_cases(ctx.rng.fork("falsy-agents"))
+    sf = F.schema_falsy_cases() + F.node_state_cases() + F.agent_settings_cases(ctx.rng.fork("falsy-agents"))
     if not ctx.thorough:   # quick: the two-source grid in full, the schema-driven family thinned (every option still appears over seeds)
         frng = ctx.rng.fork("falsy")
         sf = [c for c in sf if c[2].get("thing") != "software" and c[2].get("thing") != "agent-setting" or frng.chance(1, 2)]
